@@ -107,6 +107,14 @@ fn categorize_and_filter_events(
     }
 }
 
+#[cfg(isographlabs_isograph_verif)]
+pub(crate) fn categorize_and_filter_events_for_verif(
+    events: &[DebouncedEvent],
+    config: &CompilerConfig,
+) -> Option<Vec<SourceFileEvent>> {
+    categorize_and_filter_events(events, config)
+}
+
 fn process_create_event(
     config: &CompilerConfig,
     create_kind: CreateKind,
